@@ -1387,9 +1387,33 @@ def lex_case(gtext, texts):
     return out
 
 
+def idc_stream(ctx):
+    """is_id_continue on the ASCII range: lark.utils.is_id_continue and unicodedata.category against the model's
+    is_id_continue and the category table behind the regenerated category tuple (Recons/GenBase.ascii_cat)"""
+    import unicodedata
+    from lark.utils import is_id_continue
+    val, out = ctx.coq_eval('c19_idc', 'From LV Require Import Recons.Recons Recons.GenBase.',
+                            'map (fun n => (ascii_cat (Ascii.ascii_of_nat n), is_id_continue (Ascii.ascii_of_nat n))) (seq 0 128)')
+    got = re.findall(r'\(\s*"(\w\w|\?\?)",\s*(true|false)\s*\)', val or '')
+    if len(got) != 128:
+        ctx.violation('correspondence:coq-eval', {'error': (out or '')[-400:]}, False, 'is_id_continue table not evaluated')
+        return
+    for i, (cat, b) in enumerate(got):
+        ch = chr(i)
+        ok = cat == unicodedata.category(ch) and (b == 'true') == bool(is_id_continue(ch))
+        ctx.count('idc-ascii', key=i, nontrivial=True)
+        if not ok:
+            ctx.violation('correspondence:Recons.is_id_continue / GenBase.ascii_cat vs lark.utils.is_id_continue / unicodedata',
+                          dict(no_longer_checks='the spacing rule of the model (is_id_continue on ASCII)', char=i,
+                               model=[cat, b], lark=[unicodedata.category(ch), bool(is_id_continue(ch))]), False,
+                          'is_id_continue differs on chr(%d)' % i)
+            return
+
+
 def correspond(ctx):
     rng = ctx.rng
     name_collision_stream(ctx)
+    idc_stream(ctx)
     lex_cases = []
     rx_cases, rx_meta = [], []
     sf_cases, sf_meta = [], []
